@@ -68,6 +68,25 @@ def oracle(case, impl):
             for x in points(inp, pieces):
                 if member(inp, x) != member(pieces, x):
                     return "code point %d gained or lost by splitting" % x
+            # the callbacks tell the caller WHICH pieces replace which range (mode.normalizeInputs relabels the
+            # edges with them): replaying them, every input range must end up as the exact union of its pieces
+            log = impl.split(";", 1)[1].strip() if ";" in impl else ""
+            owners = {}
+            for i, rg in enumerate(inp):
+                owners.setdefault(rg, set()).add(i)
+            if log:
+                for ent in log.split("/"):
+                    q = parse_ranges(ent)
+                    if len(q) != 4:
+                        return "callback entry %r does not hold four ranges" % ent
+                    own = owners.pop(q[0], set())
+                    for pc in set(q[1:]):
+                        owners.setdefault(pc, set()).update(own)
+            for i, (b, e) in enumerate(inp):
+                mine = [pc for pc, ow in owners.items() if i in ow]
+                for x in points([(b, e)], mine):
+                    if (b <= x <= e) != member(mine, x):
+                        return "after the callbacks, range %s is relabelled with pieces %s which are not its exact union (code point %d)" % ((b, e), sorted(mine), x)
         elif op == "rang3.rel":
             (b1, e1), (b2, e2) = parse_ranges(payload)
             if b1 > e1 or b2 > e2:
